@@ -153,7 +153,13 @@ public:
 
   QUILL_ATTRIBUTE_HOT void commit_read() noexcept
   {
-    if (static_cast<integer_type>(_reader_pos - _atomic_reader_pos.load(std::memory_order_relaxed)) >= _bytes_per_batch)
+    // Publish in batches, but never leave consumed bytes unpublished once the reader has caught up
+    // with the writer: otherwise a producer waiting for (capacity - unpublished) bytes stalls forever
+    // on an empty queue.
+    integer_type const unpublished =
+      static_cast<integer_type>(_reader_pos - _atomic_reader_pos.load(std::memory_order_relaxed));
+
+    if ((unpublished >= _bytes_per_batch) || ((unpublished != 0) && (_writer_pos_cache == _reader_pos)))
     {
       _atomic_reader_pos.store(_reader_pos, std::memory_order_release);
 
